@@ -209,6 +209,11 @@ fn run_pass(exe: &Path, a: &CheckArgs, first: u64, n: u64) -> Pass {
                 }
                 workers[s].current = None;
                 workers[s].next_start = r.idx + jobs as u64;
+                if !r.violations.is_empty() {
+                    // (the worker reports at most one violation per class and scenario, the parent keeps three per
+                    // class: this count is the uncapped measure of how often an oracle fired)
+                    r.stat("scenarios_with_a_violating_run", 1);
+                }
                 // bound memory: keep the replay data of the first few violations of each class only
                 r.violations.retain(|v| {
                     let c = kept.entry((v.oracle.clone(), v.class.clone())).or_insert(0u32);
